@@ -206,6 +206,8 @@ class C01(Prop):
         for w, keys in KEYS.items():
             for key in keys:
                 out.append(comp(w + " " + key, {}, expect=[w + " " + key]))
+        # a carriage return inside typed text is text (string entry point: lines end at "\n" only)
+        out.append(comp("STRING a\rb\nSTRINGLN x\r\nENTER", {}, expect=["STRING a\rb", "STRINGLN x\r", "ENTER"]))
         return out
 
     def oracle(self, c, i):
@@ -786,6 +788,11 @@ class RefProp(Prop):
             ref = refsem.run_ref(prog)
             unit = r.choice(["    ", "  ", "\t"])
             lines = refsem.to_lines(prog, unit, 0, r)
+            if r.random() < 0.3:
+                # blank and whitespace-only lines anywhere (also inside blocks): only reported line numbers move
+                for _ in range(r.randint(1, 4)):
+                    j = r.randrange(len(lines) + 1)
+                    lines.insert(j, r.choice(["", "", "  ", "\t", unit * 2]))
             text = "\n".join(lines)
             cases.append(comp(text, {}, ref=ref))
             if r.random() < 0.12:
@@ -991,6 +998,17 @@ class C18(RefProp):
         out.append(F({("m.txt",): "START a\nSTARTCODE b\nPRINT end\nDELAY -1", ("a.txt",): "PRINT\n    a1\n    a2", ("b.txt",): "REPEAT 2\n    PRINT b"}, ("m.txt",),
                      expect_print_files=[("a.txt", 2), ("a.txt", 3), ("b.txt", 2), ("b.txt", 2), ("m.txt", 3)]))
         out.append(comp("PRINT\n    one\n    two\n    three\nPRINT four\n    five", {}, expect_prints=["one", "two", "three", "four", "five"]))
+        # prints made before a stack overflow are kept like those before any other failure
+        for L in (5, 9, 20):
+            out.append(comp("PRINT top\nFUNC f\n    PRINT in\n    RUN f\nRUN f", {"stack_limit": L}))
+            out.append(comp("PRINT top\n" + "\n".join("    " * j + "IF TRUE\n" + "    " * (j + 1) + "PRINT d%d" % j for j in range(L + 1)), {"stack_limit": L}))
+            files = {("m.txt",): "PRINT top\nSTART f1"}
+            for j in range(1, L + 2):
+                files[("f%d.txt" % j,)] = "PRINT in%d\nSTART f%d" % (j, j + 1)
+            files[("f%d.txt" % (L + 2),)] = "STRING end"
+            out.append(F(files, ("m.txt",), {"stack_limit": L}))
+        for t in ["FUNC f\n    PRINT a\n\n    PRINT b\n  \n    $PRINT 1+1\nRUN f", "IF TRUE\n\n    PRINT x\n\n\n    PRINT y", "REPEAT 2\n    PRINT\n        g1\n\n        g2\n\n    PRINT after"]:
+            out.append(comp(t))
         for kind in ("START", "STARTENV", "STARTCODE"):
             out.append(F({("m.txt",): "PRINT m1\nIF TRUE\n    PRINT m2\n    %s a\nPRINT never" % kind, ("a.txt",): "PRINT a1\nSTART b", ("b.txt",): "PRINT b1\nDELAY -1"}, ("m.txt",),
                          expect_prints=["m1", "m2", "a1", "b1"]))
